@@ -31,6 +31,9 @@ fn tier_of(s: &str) -> Tier {
 }
 
 fn main() {
+    // the one environment variable the reference evaluator knows about (`env` / `$`)
+    std::env::set_var("JV_FIXED", "fixed-value");
+    std::env::remove_var("JV_UNSET");
     let args: Vec<String> = std::env::args().collect();
     if args.len() < 2 {
         usage();
